@@ -72,7 +72,8 @@ def check_schema_table(h, schema):
     for ent, rows in schema.kind_table().items():
         r = h.cmd(f"attrs {ent.capitalize()}")
         got = [tuple(w.split("/")) for w in r.split()[1:]]
-        exp = [(n, base, "1" if opt else "0", "0", "0") for n, base, opt in rows]
+        attrs = schema.all_attrs(ent.lower())
+        exp = [(a.name, a.base, "1" if a.optional else "0", "0", "0", "REF" if a.type_ref else a.base) for a in attrs]
         if got != exp:
             raise RuntimeError(f"generator/registry disagree on {ent}: generator {exp} registry {got}")
 
@@ -102,7 +103,7 @@ def model_inst(schema, inst, miss=None):
                 t = "M0"
             else:
                 t = "LNULL"
-            ws.append(f"{a.base}:{1 if a.optional else 0}:0:{t}")
+            ws.append(f"{a.base}:{1 if a.optional else 0}:0:{1 if a.type_ref else 0}:{t}")
         parts.append(" ".join(ws))
     return ("X " + " ; ".join(parts)) if inst.is_complex else ("S " + parts[0])
 
@@ -136,8 +137,36 @@ def observe(h, path, strict, n_expected, idx):
         t = h.cmd(f"inst {idx}")
         if t.startswith("T "):
             txt = bytes.fromhex(t[2:]).decode("latin-1") if t[2:] != "-" else ""
+    # what p21read does next when the read was accepted: WriteExchangeFile with validation
+    wret, wtext = None, None
+    if idx is not None and SEV_RANK[r["sev"]] > SEV_RANK["INCOMPLETE"]:
+        outp = path + ".out"
+        for f in (outp, outp + ".bak"):
+            if os.path.exists(f):
+                os.unlink(f)
+        w = kv(h.cmd(f"write {outp} 1"))
+        wret = w["ret"]
+        if os.path.exists(outp):
+            wtext = open(outp).read()
+            os.unlink(outp)
     return {"sev": r["sev"], "ret": r["ret"], "n": int(r["n"]), "states": [x[2] for x in d], "ids": [int(x[0]) for x in d],
-            "inst_text": txt, "errs": int(r["errs"])}
+            "inst_text": txt, "errs": int(r["errs"]), "write_ret": wret, "write_text": wtext}
+
+
+def file_value(obs, inst, pi, ai):
+    """value at (part, attr) of the instance in the file WriteExchangeFile(validate) produced, None when nothing was written"""
+    if not obs.get("write_text") or (obs.get("write_ret") and SEV_RANK[obs["write_ret"]] <= SEV_RANK["INCOMPLETE"]):
+        return None
+    try:
+        _, _, parsed = G.parse_p21(obs["write_text"])
+    except Exception:
+        return None
+    for _, i in parsed:
+        if i.id == inst.id:
+            for n, vs in i.parts:
+                if n == inst.parts[pi][0] and ai < len(vs):
+                    return vs[ai]
+    return None
 
 
 def written_value(obs, inst, pi, ai):
@@ -171,6 +200,8 @@ def oracle(base, optional, strict, obs, idx, exit_thr, value, dollar=True):
             return f"{tok} for OPTIONAL {base} attribute: read not accepted (file severity {obs['sev']})"
         if st != "completeSE":
             return f"{tok} for OPTIONAL {base} attribute: instance state {st}"
+        if obs.get("write_ret") is not None and SEV_RANK[obs["write_ret"]] <= SEV_RANK[exit_thr]:
+            return f"{tok} for OPTIONAL {base} attribute: read accepted but WriteExchangeFile refuses to write it back ({obs['write_ret']})"
         return None
     if strict or not dollar:
         mode = "strict mode" if strict else "lenient mode"
@@ -184,6 +215,9 @@ def oracle(base, optional, strict, obs, idx, exit_thr, value, dollar=True):
             return f"lenient mode, `$` for required {base}: file rejected (file severity {obs['sev']}) instead of accepted with a user message"
         if obs["sev"] != "USERMSG":
             return f"lenient mode, `$` for required {base}: accepted without a user message (file severity {obs['sev']})"
+        if obs.get("write_ret") is not None and SEV_RANK[obs["write_ret"]] <= SEV_RANK[exit_thr]:
+            return (f"lenient mode, `$` for required {base}: read accepted with a user message but WriteExchangeFile (with validation, as "
+                    f"p21read calls it) refuses to write the file back ({obs['write_ret']}, instance state {st})")
         if value is None or value[0] != "tok" or not G.tok_equal(value[1], SUBST[base]):
             return f"lenient mode, `$` for required {base}: value written back is {value!r}, expected {SUBST[base]}"
         return None
@@ -294,14 +328,17 @@ def run_schema(ctx, b, schema, pop, workdir, exe, p21read, model_exe, exit_thr, 
             obs = observe(h, path, strict, len(pop), idx)
             val = written_value(obs, m[idx], pi, ai)
             shape = shape_of(pop[idx], pi)
-            cls = (a.base, a.optional, strict, shape, dollar)
+            cls = (a.base, a.optional, strict, shape, dollar, a.type_ref)
             ctx.count(1, key=(schema.name, idx, pi, ai, dollar, strict))
             ctx.hist("kind", a.base); ctx.hist("shape", shape); ctx.hist("mode", "strict" if strict else "lenient")
             ctx.hist("optional", str(a.optional)); ctx.hist("token", "$" if dollar else "empty")
             ctx.hist("impl file severity", obs["sev"])
+            ctx.hist("defined-type depth", str(a.depth))
             info = {"kind": a.base, "optional": a.optional, "strict": strict, "shape": shape, "dollar": dollar,
+                    "typeref": a.type_ref, "depth": a.depth,
                     "pop": m, "idx": idx, "pi": pi, "ai": ai, "attr": a.name}
-            e = oracle(a.base, a.optional, strict, obs, idx, exit_thr, val, dollar)
+            fval = file_value(obs, m[idx], pi, ai)
+            e = oracle(a.base, a.optional, strict, obs, idx, exit_thr, fval if fval is not None else val, dollar)
             if e:
                 kc = known_class(info, obs, idx, val)
                 info["known_class"] = kc
@@ -311,7 +348,8 @@ def run_schema(ctx, b, schema, pop, workdir, exe, p21read, model_exe, exit_thr, 
                 ctx.hist("recorded defect class hit", kc)
                 # a recorded defect: the model follows the code, so the correspondence below is still demanded
             # the real p21read on a sample: one file per class
-            if p21read and cls not in sampled and len(sampled) < p21_sample:
+            subst_class = (not a.optional and not strict and dollar and a.base in SUBST)
+            if p21read and cls not in sampled and (len(sampled) < p21_sample or subst_class):
                 sampled.add(cls)
                 outp = os.path.join(workdir, "p21out.p21")
                 r = subprocess.run([p21read] + (["-s"] if strict else []) + [path, outp], capture_output=True, env=env,
@@ -359,7 +397,8 @@ def key_of(info):
     if info.get("known_class"):
         return info["known_class"]
     return (f"{'strict' if info['strict'] else 'lenient'}:{'optional' if info['optional'] else 'required'}:"
-            f"{'dollar' if info.get('dollar', True) else 'absent'}:{info['kind']}:{info['shape']}")
+            f"{'dollar' if info.get('dollar', True) else 'absent'}:{info['kind']}:{info['shape']}"
+            + (":behind-defined-type-chain" if info.get("typeref") else ""))
 
 
 def minimal_replay(schema, info):
@@ -416,10 +455,13 @@ def run(ctx):
     n_schemas = 3 if quick else 16
     exit_thr = exit_threshold()
     schemas = []
-    for si in range(n_schemas):
+    # schema 0: the decision-table schema - every base kind x defined-type depth 0..3 x OPTIONAL/required, every other shape
+    ts = G.table_schema("tab")
+    schemas.append((ts, G.gen_population(ctx.rng, ts, 0, shapes=G.covering_shapes(ts), p_null_optional=0.3, min_targets=2)))
+    for si in range(1, n_schemas):
         rng = ctx.rng
-        s = G.gen_schema(rng, f"vs{si}", n_entities=rng.randint(4, 7), cover_all_kinds=(si % 2 == 0),
-                         p_optional=0.35, with_complex=True)
+        s = G.gen_schema(rng, f"vs{si}", n_entities=rng.randint(4, 7), cover_all_kinds=(si % 2 == 1),
+                         p_optional=0.35, with_complex=True, extra=(si % 2 == 0))
         pop = G.gen_population(rng, s, 0, shapes=G.covering_shapes(s), p_null_optional=0.3, min_targets=2)
         schemas.append((s, pop))
     t0 = time.time()
@@ -460,7 +502,7 @@ def run(ctx):
         s, pop = schemas[0]
         ctx.sample({"schema": s.express()[:1200]})
         ctx.sample({"population": G.render(s.name, pop)[:1200]})
-    ctx.cov["rule"] = ("per generated schema (all attribute base kinds x OPTIONAL/required, inheritance chains, one ANDOR family): "
+    ctx.cov["rule"] = ("schema 0 = decision-table schema (every base kind x defined-type depth 0..3 x OPTIONAL/required + nested/renamed selects); then generated schemas (all attribute base kinds x OPTIONAL/required, defined-type chains, inheritance chains, one ANDOR family): "
                        "a covering conforming population (every entity once, every complex combination once); every attribute "
                        "position of every instance replaced by `$` and by nothing; each read strict and lenient; real p21read "
                        "on one file per (kind, optional, mode, shape, token) class")
